@@ -17,10 +17,13 @@ type verifWriter struct {
 	pre  func(op, path string)
 }
 
-func (w *verifWriter) Write(b []byte) (int, error) { w.pre("write", w.name); return w.BufioWriter.Write(b) }
-func (w *verifWriter) Sync() error                 { w.pre("sync", w.name); return w.BufioWriter.Sync() }
-func (w *verifWriter) Flush() error                { w.pre("flush", w.name); return w.BufioWriter.Flush() }
-func (w *verifWriter) Close() error                { w.pre("close", w.name); return w.BufioWriter.Close() }
+func (w *verifWriter) Write(b []byte) (int, error) {
+	w.pre("write", w.name)
+	return w.BufioWriter.Write(b)
+}
+func (w *verifWriter) Sync() error  { w.pre("sync", w.name); return w.BufioWriter.Sync() }
+func (w *verifWriter) Flush() error { w.pre("flush", w.name); return w.BufioWriter.Flush() }
+func (w *verifWriter) Close() error { w.pre("close", w.name); return w.BufioWriter.Close() }
 
 // VerifSetFS wraps the table writer / mapping seams with pre(op, path); nil restores them.
 func VerifSetFS(pre func(op, path string)) {
